@@ -1,18 +1,32 @@
 #!/usr/bin/env python3
 """Run every mutants/<Cxx>-*.patch against its property's quick check; append results to mutants/RESULTS.md.
-   python3 tools/mutants_all.py [Cxx ...] [--suite]"""
+   python3 tools/mutants_all.py [Cxx ...] [--suite] [-j N]"""
 import glob, os, re, subprocess, sys, time
+from concurrent.futures import ThreadPoolExecutor
 V = os.path.dirname(os.path.dirname(os.path.abspath(__file__)))
-props = [a for a in sys.argv[1:] if not a.startswith("--")]
-suite = ["--suite"] if "--suite" in sys.argv else []
-out = []
-for p in sorted(glob.glob(os.path.join(V, "mutants", "C*-*.patch"))):
+args = sys.argv[1:]
+jobs = 1
+if "-j" in args:
+    i = args.index("-j"); jobs = int(args[i + 1]); del args[i:i + 2]
+props = [a for a in args if not a.startswith("--")]
+suite = ["--suite"] if "--suite" in args else []
+
+
+def one(p):
     pid = os.path.basename(p).split("-")[0]
-    if props and pid not in props: continue
     r = subprocess.run([sys.executable, os.path.join(V, "tools/mutant.py"), p, pid, "quick"] + suite, stdout=subprocess.PIPE, stderr=subprocess.STDOUT, text=True)
     first = r.stdout.strip().splitlines()[0] if r.stdout.strip() else "??"
     print(first, flush=True)
-    out.append("| %s | %s | %s |" % (pid, os.path.basename(p), first))
+    return "| %s | %s | %s |" % (pid, os.path.basename(p), first)
+
+
+ps = [p for p in sorted(glob.glob(os.path.join(V, "mutants", "C*-*.patch"))) if not props or os.path.basename(p).split("-")[0] in props]
+py = [p for p in ps if os.path.basename(p).split("-")[0] in ("C19", "C20")]
+cpp = [p for p in ps if p not in py]
+with ThreadPoolExecutor(jobs) as ex:
+    out = list(ex.map(one, cpp))
+with ThreadPoolExecutor(max(1, jobs // 2)) as ex:          # the bindings builds are heavy
+    out += list(ex.map(one, py))
 with open(os.path.join(V, "mutants", "RESULTS.md"), "a") as f:
     f.write("\n## run %s\n\n| property | patch | result |\n|---|---|---|\n" % time.strftime("%Y-%m-%d %H:%M"))
     f.write("\n".join(out) + "\n")
